@@ -55,6 +55,8 @@ let label hexs lens = { lval = bytes_of_hex hexs; llen = n_of_int (int_of_string
 let fmt_label l = Printf.sprintf "%s %d" (hex_of_bytes l.lval) (int_of_n l.llen)
 let cfg_empty = function "w" -> empty_label_whatsapp | _ -> empty_label_experimental
 
+let fmt_nlist l = "[" ^ String.concat "," (List.map dec_of_n l) ^ "]"
+
 (* token cursor *)
 type cur = { toks : string array; mutable i : int }
 let next c = let t = c.toks.(c.i) in c.i <- c.i + 1; t
@@ -94,6 +96,12 @@ let answer (c : cur) : string =
     fmt_elems (sort_canon (set_list l)) ^ " " ^ fmt_elems (sort_canon (set_list r))
   | "set_cp" -> let bs = next c in let es = next_elems c in let p = next_label c in
     if eset_contains_prefix (mk_set bs es) p then "1" else "0"
+  | "markers" -> let s = n_of_dec (next c) in let n = n_of_dec (next c) in let e = n_of_dec (next c) in
+    (match get_marker_versions s n e with
+     | None -> "PANIC"
+     | Some (p, f) -> fmt_nlist p ^ " " ^ fmt_nlist f)
+  | "kf_K1" -> let e = n_of_dec (next c) in let n = n_of_dec (next c) in let m = n_of_dec (next c) in
+    if k1_class e n m then "1" else "0"
   | _ -> "?"
 
 let () =
